@@ -214,7 +214,7 @@ func handleLeafValue(nodemap map[string]interface{}, value *configapi.TypedValue
 	case configapi.ValueType_BOOL:
 		(nodemap)[pathelems[0]] = (*configapi.TypedBool)(value).Bool()
 	case configapi.ValueType_BYTES:
-		(nodemap)[pathelems[0]] = (*configapi.TypedBytes)(value).ByteArray()
+		(nodemap)[pathelems[0]] = (*configapi.TypedBytes)(value).String() // base64; "" (not null) for an empty value
 	case configapi.ValueType_LEAFLIST_STRING:
 		(nodemap)[pathelems[0]] = (*configapi.TypedLeafListString)(value).List()
 	case configapi.ValueType_LEAFLIST_INT:
